@@ -662,7 +662,10 @@ func (vc *VC) exprTargets(env *Env, e Expr, text string) []modTarget {
 				if err != nil {
 					panic(execErr(err.Error()))
 				}
-				return []modTarget{{"G_" + id.Name, sortName, env.value(k).S}}
+				if splitSortArgs(sortName)[0] != "Int" {
+					k = env.value(k)
+				}
+				return []modTarget{{"G_" + id.Name, sortName, k.S}}
 			}
 		}
 	case *ESel:
